@@ -114,6 +114,13 @@ def run(tier, seed, mutant=None, only_validate=False):
             gaps = ["e1 s d s " + "w " * g + "e1 e1 s" for g in range(1, 2 * i + 2)]
             gaps += ["e1 s d s " + "w " * g + "e1 s d s " + "w " * h + "e1 e1" for g in range(1, 2 * i + 2) for h in (1, i, i + 1)]
             cfgs.append({"kind": "rate_limit", "interval": i, "cons": ["future"], "max_elems": ne, "idle_wait": True, "schedules": gaps})
+        # start() / stop();start() reaching the node from downstream while it is running: nothing changes
+        import random as _random
+        _rng = _random.Random(seed + 7)
+        life = ["e1 e1 e1 R e1 s a s a s a s a", "e1 s d R e1 s d", "e1 e1 s d Z e1 e1 s a s d a s d", "e1 s d w R e1 s d w Z e1 s d"]
+        life += [" ".join(_rng.choice(["e1", "e1", "s", "d", "a", "w", "R", "Z"]) for _ in range(_rng.randint(6, 14)))
+                 for _ in range(60 if tier == "quick" else 600)]
+        cfgs.append({"kind": "rate_limit", "interval": 2, "cons": ["future"], "max_elems": ne, "lifecycle": True, "idle_wait": True, "schedules": life})
         # a cycle through the limiter (examples/fib_*.py): the consumer emits the next element while it is handed the current one
         cfgs += [{"kind": "rate_limit", "interval": i, "cons": ["future"], "max_elems": ne, "feedback": True} for i in (2, 3)]
         amod.node_engine(res, work, node="rate_limit", trace_module="AsyncRateLimitTrace", cfgs=cfgs,
